@@ -10,7 +10,8 @@ PROPERTY = 'C04'
 LEVEL = 'exploration'
 TECH = 'model-based PBT: generated storage programs vs reference history model (query battery after every step)'
 RULE = ('cases = generated raw-API storage programs (store/delete/undo/restore/abort/reopen/clock anomalies, '
-        'boundary metadata and record sizes) on FileStorage, MappingStorage, DemoStorage; after every step the '
+        'boundary metadata and record sizes) on FileStorage, MappingStorage, DemoStorage (empty base, changes in a mapping '
+        'or file storage; and over a mapping/file base that already holds a generated history); after every step the '
         'whole query battery (loadBefore at every tid boundary x every oid, load, loadSerial, getTid, history, '
         'iterator and ranges, undoLog, record_iternext, lastTransaction, len) is compared with the model; '
         'evaluations = individual queries compared; non-trivial = program with >= 3 committed transactions '
@@ -20,13 +21,61 @@ ASSUMPTIONS = ['tids are recorded from the storage, not predicted; only order an
                'history() compared on (tid, user, description)']
 BUDGET = {'quick': {'examples': 3000, 'workers': 8},
           'thorough': {'examples': 25000, 'workers': 16}}
-KINDS = ['fs', 'fs', 'fs', 'mapping', 'demo', 'demo-fs']
+KINDS = ['fs', 'fs', 'fs', 'mapping', 'demo', 'demo-fs', 'demo-over-mapping', 'demo-over-fs']
 
 
 def strategy(tier):
     n = 12 if tier == 'quick' else 25
-    return st.sampled_from(KINDS).flatmap(
-        lambda k: st.fixed_dictionaries({'kind': st.just(k), 'prog': programs.program_strategy(k, n)}))
+
+    def build(k):
+        if k.startswith('demo-over-'):
+            # a demo storage over a base that already has a history: the answers are those of the
+            # concatenated history (objects of the base rewritten once, twice, ... in the changes)
+            bk = k[len('demo-over-'):]
+            return st.fixed_dictionaries({'kind': st.just(k),
+                                          'base_prog': programs.program_strategy(bk, max(3, n // 2), {'stale'}),
+                                          'prog': programs.program_strategy('demo', n)})
+        return st.fixed_dictionaries({'kind': st.just(k), 'prog': programs.program_strategy(k, n)})
+    return st.sampled_from(KINDS).flatmap(build)
+
+
+def execute_over(case, out):
+    from ZODB.DemoStorage import DemoStorage
+    from vlib.model import Battery
+    d = newdir()
+    bk = case['kind'][len('demo-over-'):]
+    br = programs.StorageRunner(bk, d, out, PROPERTY)
+    r = None
+    try:
+        br.run(case['base_prog'])
+        if out.failures:
+            return br
+        clock.CLOCK.advance(2.0)
+        demo = DemoStorage(base=br.storage)
+        r = programs.StorageRunner('demo', d, out, PROPERTY, storage=demo, model=br.model.copy())
+        r.oids = list(br.oids)
+        r.uid = br.uid + 1000
+        r.battery = Battery(programs.CAPS['demo'])
+        r.skip_uncreated = True
+        r.labels |= br.labels
+        nbase = len(br.model.txns)
+        r.run(case['prog'])
+        base_oids = set(br.model.oids())
+        writes = {}
+        for t in r.model.txns[nbase:]:
+            for oid, _ in t.recs:
+                if oid in base_oids:
+                    writes[oid] = writes.get(oid, 0) + 1
+        if writes:
+            r.labels.add('base-object-rewritten-in-changes')
+        if any(v >= 2 for v in writes.values()):
+            r.labels.add('base-object-rewritten-twice')
+        return r
+    finally:
+        if r is not None:
+            r.close()       # (closes the base too)
+        else:
+            br.close()
 
 
 def execute(case):
@@ -35,6 +84,11 @@ def execute(case):
     clock.install()
     locks.install()
     clock.reset()
+    if case['kind'].startswith('demo-over-'):
+        r = execute_over(case, out)
+        out.label(case['kind'], *r.labels)
+        out.nontrivial = r.committed >= 3 and 'base-object-rewritten-in-changes' in r.labels
+        return out
     d = newdir()
     r = programs.StorageRunner(case['kind'], d, out, PROPERTY)
     try:
@@ -57,4 +111,4 @@ LEVEL_TEXT = ('Generated histories are executed on the real storages and on a ~2
               'every query the statement names is compared after every step, for every oid (plus absent ones) and '
               'every tid boundary around each revision. Exploration of histories up to 12 (quick) / 25 (thorough) steps.')
 LEVEL_NOTE = ('Trusted: the reference model (vlib/model.py), harness clock bound as `time` in the ZODB modules. '
-              'No pack in C04 programs (C07). DemoStorage here has an empty base (two-layer behaviour is C16).')
+              'No pack in C04 programs (C07). DemoStorage over a non-empty base: query answers only (base immutability, stacking: C16).')
